@@ -204,6 +204,23 @@ pub fn menu(quick: bool) -> Vec<ArrSpec> {
             }
         }
     }
+    // wide sums: four to six summands with pairwise different step positions, rotated so that
+    // each position holds each summand once
+    let wide: Vec<ArrSpec> = vec![
+        ArrSpec::Sporadic { t: 5, j: 0 },
+        ArrSpec::Sporadic { t: 7, j: 3 },
+        ArrSpec::Periodic { t: 4 },
+        ArrSpec::Sporadic { t: 6, j: 5 },
+        ArrSpec::Curve { dmin: vec![0, 9] },
+        ArrSpec::ExtCurve { dmin: vec![2, 11] },
+    ];
+    for n in 4..=wide.len() {
+        for rot in 0..n {
+            let comps: Vec<ArrSpec> = (0..n).map(|k| wide[(k + rot) % n].clone()).collect();
+            v.push(ArrSpec::Sum(comps.clone()));
+            v.push(ArrSpec::Slice(comps));
+        }
+    }
     v.push(ArrSpec::Sum(vec![]));
     v.push(ArrSpec::Slice(vec![]));
     v.push(ArrSpec::Slice(vec![ArrSpec::Periodic { t: 4 }, ArrSpec::Periodic { t: 12 }]));
@@ -240,6 +257,23 @@ pub fn rb_menu(quick: bool) -> Vec<RbSpec> {
                 v.push(RbSpec::Aggregate(vec![RbSpec::Aggregate(vec![a.clone(), b.clone()]), RbSpec::Boxed(Box::new(b.clone()))]));
                 v.push(RbSpec::Slice(vec![RbSpec::Slice(vec![a.clone()]), b.clone(), a.clone()]));
             }
+        }
+    }
+    // wide compositions: four to six components with pairwise different step positions, each
+    // position (first .. last) holding the component whose steps nobody else has
+    let wide: Vec<RbSpec> = vec![
+        RbSpec::Rbf(ArrSpec::Sporadic { t: 5, j: 0 }, CostSpec::Scalar(1)),
+        RbSpec::Rbf(ArrSpec::Sporadic { t: 7, j: 3 }, CostSpec::Scalar(2)),
+        RbSpec::Rbf(ArrSpec::Periodic { t: 4 }, CostSpec::Scalar(1)),
+        RbSpec::Rbf(ArrSpec::Sporadic { t: 6, j: 5 }, CostSpec::Scalar(2)),
+        RbSpec::Rbf(ArrSpec::Curve { dmin: vec![0, 9] }, CostSpec::Scalar(1)),
+        RbSpec::Rbf(ArrSpec::Sporadic { t: 11, j: 0 }, CostSpec::Multiframe(vec![2, 1])),
+    ];
+    for n in 4..=wide.len() {
+        for rot in 0..n {
+            let comps: Vec<RbSpec> = (0..n).map(|k| wide[(k + rot) % n].clone()).collect();
+            v.push(RbSpec::Aggregate(comps.clone()));
+            v.push(RbSpec::Slice(comps));
         }
     }
     v.push(RbSpec::Aggregate(vec![]));
